@@ -391,6 +391,11 @@ class RequestHandler(BaseProtocol, Generic[_Request]):
         if self._task_handler is not None:
             self._task_handler.cancel()
 
+        if self._request_in_progress and self.transport is not None:
+            # The response of the cancelled handler is cut short anyway;
+            # do not wait for the peer to read what is still buffered.
+            self.transport.abort()
+
         self.force_close()
 
     def connection_made(self, transport: asyncio.BaseTransport) -> None:
